@@ -70,6 +70,14 @@ type e1Base struct {
 	ET        int     `json:"et"`
 	Leach     int     `json:"leach"` // leaching depth, 0 = profile bottom
 	Start     string  `json:"start,omitempty"`
+	Hor       []proj.Horizon `json:"hor,omitempty"` // explicit profile instead of a catalogue soil
+}
+
+func (b e1Base) horizons() []proj.Horizon {
+	if len(b.Hor) > 0 {
+		return b.Hor
+	}
+	return soilCat[b.Soil]
 }
 
 // e1Project builds the project for an initial state; word days follow the warm-up.
@@ -81,13 +89,14 @@ func e1Project(b e1Base, ndays int) *proj.Project {
 	}
 	s := proj.D(start)
 	iso := func(off int) string { return s.AddDate(0, 0, off).Format("2006-01-02") }
-	n := soilN(b.Soil)
+	hor := b.horizons()
+	n := hor[len(hor)-1].Lower
 	leach := b.Leach
 	if leach == 0 {
 		leach = n
 	}
 	p := &proj.Project{ID: "e1", Plot: "1", Field: "F1", SoilID: "001",
-		Soil:     proj.Soil{Hor: soilCat[b.Soil], RootDepth: min(n, 12), GW: b.GW, DrainDepth: b.DrainDep, DrainFrac: b.DrainFrac},
+		Soil:     proj.Soil{Hor: hor, RootDepth: min(n, 12), GW: b.GW, DrainDepth: b.DrainDep, DrainFrac: b.DrainFrac},
 		Rotation: []proj.CropEntry{{Crop: "WW", Harvest: iso(0), Rex: 80, Yld: 50}},
 		Meas:     &proj.Meas{Date: iso(1), Mode: 1},
 		Config: map[string]string{"ETpot": fmt.Sprint(b.ET), "LeachingDepth": fmt.Sprint(leach), "AnnualOutputDate": "0101",
